@@ -401,6 +401,61 @@ def r11_14(run, model):
                    "compiler's own printer renders it as t.1.0")
 
 
+def r11_15(run, model):
+    run.rule("R11.15", "`t.i.j` projects i first: where the lowering splits the float token `i.j` into two projections, the projection applied "
+                       "directly to the left operand takes the text before the dot and the outer one the text after it")
+    f = model.fn("lower_expr_with_args", LOWER)
+    arm = None
+    for m in S.find(f.body, "Match"):
+        pats = [S.norm_ws(run.facts.text(LOWER, a["pat"]["sp"])) for a in m["arms"]]
+        if any("IntExpr" in p for p in pats) and any("IdentExpr" in p for p in pats) and "EProj" in S.norm_ws(run.facts.text(LOWER, m["sp"])):
+            for a, p in zip(m["arms"], pats):
+                if "FloatExpr" in p and (arm is None or len(pats) < arm[1]):
+                    arm = (a, len(pats))
+    if arm is None:
+        run.ob("R11.15", "member access|no float token is split into projections", True, site(LOWER, f.node["sp"]), "no FloatExpr arm in the lowering of `.`")
+        return
+    arm = arm[0]
+    # order of the two pieces: the tuple pattern bound from split_once('.') / from the parsed pair
+    pairs = []
+    for n in S.walk(arm["body"]):
+        pat = None
+        if n["k"] == "Local":
+            pat = n["pat"]
+        elif n["k"] == "Closure" and n["inputs"]:
+            pat = n["inputs"][0]
+        if pat is None:
+            continue
+        for t in S.walk(pat):
+            if t["k"] == "PTuple" and len(t["elems"]) == 2 and all(S.strip_refs(e)["k"] == "PIdent" for e in t["elems"]):
+                pairs.append(tuple(S.strip_refs(e)["name"] for e in t["elems"]))
+    if not pairs:
+        raise AnalysisIncomplete("FloatExpr arm: the pair of index texts is not bound by a two-element tuple pattern")
+    firsts = {p[0] for p in pairs}
+    seconds = {p[1] for p in pairs}
+    # consistency of the chain of pairs: a closure |(a, b)| Some((A, B)) keeps the order
+    ok_chain = True
+    for n in S.walk(arm["body"]):
+        if n["k"] == "Closure" and n["inputs"]:
+            names = [S.strip_refs(e)["name"] for t in S.walk(n["inputs"][0]) if t["k"] == "PTuple" and len(t["elems"]) == 2 for e in t["elems"] if S.strip_refs(e)["k"] == "PIdent"]
+            tups = [t for t in S.walk(n["body"]) if t["k"] == "Tuple" and len(t.get("elems") or []) == 2]
+            if len(names) == 2 and tups:
+                a_, b_ = tups[-1]["elems"]
+                if not (names[0] in S.idents(a_) and names[1] in S.idents(b_)):
+                    ok_chain = False
+    projs = [st for st in S.walk(arm["body"]) if st["k"] == "Struct" and st["segs"][-1] == "EProj"]
+    inner = [st for st in projs if any(fl["name"] == "tuple" and "lhs" in S.idents(fl["expr"]) and not any(x["k"] == "Struct" for x in S.walk(fl["expr"])) for fl in st["fields"])]
+    if len(projs) < 2 or not inner:
+        raise AnalysisIncomplete("FloatExpr arm: the two EProj nodes were not recognised")
+    idx = lambda st: next((S.idents(fl["expr"]) for fl in st["fields"] if fl["name"] == "index"), set())
+    inner_ok = bool(idx(inner[0]) & firsts) and not (idx(inner[0]) & (seconds - firsts))
+    outer = [st for st in projs if st is not inner[0]]
+    outer_ok = all(bool(idx(st) & seconds) and not (idx(st) & (firsts - seconds)) for st in outer)
+    run.ob("R11.15", "member access|`t.i.j` applies index i to t and index j to the result", ok_chain and inner_ok and outer_ok, site(LOWER, arm["sp"]),
+           f"pairs bound: {pairs}; index of the projection on lhs: {sorted(idx(inner[0]))}; of the outer projection: {[sorted(idx(st)) for st in outer]}",
+           witness="let t = ((1, 2), (3, 4)); t.1.0 reads (t.0).1 = 2 instead of 3 - both orders type-check on a symmetric tuple")
+
+
 def r11_10(run, model):
     run.rule("R11.10", "the Pratt loop stops an operand exactly when the next operator binds *less* tightly than the context (`l_bp < min_bp`): "
                        "with `<=` equal powers stop too, and the only tie the tables allow - prefix (r_bp) against `.` (l_bp) - flips: "
@@ -441,6 +496,7 @@ def run(run, model):
     run.try_rule(r11_9, model)
     run.try_rule(r11_12, model)
     run.try_rule(r11_14, model)
+    run.try_rule(r11_15, model)
     run.try_rule(r11_6, model)
     run.try_rule(r11_7, model)
     run.try_rule(r11_1, model)
